@@ -168,7 +168,7 @@ def gen_stage(rng, profile=None):
             shp = pick_shape(rng, pr["allow_matrix"], 0.3)
             params.append({"name": "p%d" % i, "shape": shp, "grid": "",
                            "value": [[rnd(rng, -1.5, 1.5) for _ in range(shp[1])] for _ in range(shp[0])]})
-        for i in range(rng.randint(0, 1)):
+        for i in range(rng.choice([0, 1, 1, 2])):
             variables.append({"name": "v%d" % i, "shape": pick_shape(rng, pr["allow_matrix"], 0.3), "grid": ""})
     if pr["per_interval"]:
         for i in range(rng.randint(0, 2)):
@@ -178,7 +178,7 @@ def gen_stage(rng, profile=None):
             ncol = shp[1] * (N + (1 if il else 0))
             params.append({"name": "pc%d" % i, "shape": shp, "grid": "control", "include_last": il,
                            "value": [[rnd(rng, -1.5, 1.5) for _ in range(ncol)] for _ in range(shp[0])]})
-        for i in range(rng.randint(0, 1)):
+        for i in range(rng.choice([0, 1, 1, 2])):
             variables.append({"name": "vc%d" % i, "shape": rng.choice([[2, 2], [1, 2]]) if (pr["allow_matrix"] and pr["per_interval_matrix"] and rng.random() < 0.15)
                               else pick_shape(rng, False, 0.3), "grid": "control",
                               "include_last": rng.random() < 0.4})
